@@ -159,6 +159,7 @@ func runC07(sc *c07Scenario) *Violation {
 		if sc.HandlerAsks {
 			_ = c.Connected()
 			_ = c.Me()
+			_ = c.String()
 		}
 		if sc.HandlerSlowUS > 0 {
 			time.Sleep(time.Duration(sc.HandlerSlowUS) * time.Microsecond)
